@@ -249,7 +249,7 @@ func runC02(ctx *report.Ctx) {
 		})
 	} else {
 		part(ctx, "G2-three-ops", -1, func(c *explore.Chooser) {
-			e := tree(c, 3, g2OperandsSmall, false)
+			e := tree(c, 3, g2OperandsSmall, true)
 			pol := []yc.ParenPolicy{yc.ParenMinimal, yc.ParenFull}[c.Choose(2, "paren")]
 			if !c.Mine() {
 				return
